@@ -41,3 +41,22 @@ for sa in (0, 1):
         'poly_t* poly_move_assign(poly_t* self, poly_t* other)', 'polymorphic.spec.h', xform=xf_p, defines=['IS_ASSIGN=1', 'SELF_ASSIGN=%d' % sa], replay=['poly']))
 UNITS.append(Unit('backmp11.basic_polymorphic_base.dtor', ['C20'], 'backmp11', Part(BP, SC, '~ basic_polymorphic_base ( )'),
     'void poly_dtor(poly_t* self)', 'polymorphic.spec.h', xform=xf_p, replay=['poly']))
+UNITS.append(Unit('backmp11.basic_polymorphic_base.IsInline', ['C20'], 'backmp11', Part(BP, SC, '', member_init='IsInline'),
+    '_Bool IsInline(size_t size_U, size_t align_U, _Bool nothrow_move_U)', 'polymorphic.spec.h', defines=['UNIT_INLINE=1'],
+    xform=back_xform([], refparams=(), drop=DROP3, rewrites=[
+        dict(name='TVAL-sizeof', pat='sizeof ( U )', rep='size_U', min=0), dict(name='TVAL-alignof', pat='alignof ( U )', rep='align_U', min=0),
+        dict(name='TVAL-max-align', pat='alignof ( max_align_t )', rep='( ( size_t ) 16 )', min=0),
+        dict(name='TVAL-trait', pat='is_nothrow_move_constructible_v < U >', rep='nothrow_move_U', min=0),
+        dict(name='TVALUE-bool-constant', pat='MEMBER_INIT ( IsInline , bool_constant < $*E > ) ;', rep='MEMBER_INIT ( IsInline , ( $*E ) ) ;', min=1, max=1)]), replay=['poly']))
+UNITS.append(Unit('backmp11.basic_polymorphic_base.converting_ctor', ['C20'], 'backmp11',
+    Part(BP, SC, 'explicit basic_polymorphic_base ( const U & obj )', init_list=True),
+    'void poly_conv_ctor(poly_t* self, const void* obj)', 'polymorphic.spec.h', defines=['UNIT_CONV_CTOR=1'],
+    xform=back_xform([], refparams=(), members=['m_control_block', 'm_buffer', 'm_ptr'], drop=DROP3, rewrites=MEMB + [
+        dict(name='INITLIST-cb', pat='self -> m_control_block = & control_block_v < U , IsInline < U > :: value > ;', rep='self -> m_control_block = IS_INLINE_U ? & g_cb_inline : & g_cb_heap ;', min=0, max=1),
+        dict(name='TVAL-inline', pat='IsInline < U > :: value', rep='IS_INLINE_U', min=0),
+        dict(name='TVAL-trivial', pat='is_trivially_copyable_v < U >', rep='g_trivial_U', min=0),
+        dict(name='TVAL-sizeof', pat='sizeof ( U )', rep='g_size_U', min=0),
+        dict(name='addr-of-ref', pat='& obj', rep='obj', min=0),
+        dict(name='memcpy-ghost', pat='memcpy ( & self -> u . m_buffer , obj , g_size_U ) ;', rep='{ memcpy ( & self -> u . m_buffer , obj , g_size_U ) ; g_built = 1 ; }', min=0, max=1),
+        dict(name='placement-new', pat='new ( & self -> u . m_buffer ) U ( obj ) ;', rep='placement_new_copy ( & self -> u . m_buffer , obj ) ;', min=0, max=1),
+        dict(name='heap-new', pat='new U ( obj )', rep='heap_new_copy ( obj )', min=0, max=1)]), also_replace=['IsInline'], compose='const _Bool is_inline_U = IsInline(g_size_U, g_align_U, g_nothrow_move_U);   /* IsInline<U>::value: one compile-time constant */\n@0', replay=['poly']))
